@@ -21,6 +21,9 @@ pub enum Parked {
     Quiesce,
     /// harness-only: an ordinary always-enabled scheduling point of the consumer program
     Harness(u32),
+    /// the (controlled) parent is about to spawn this logical thread; threads spawned earlier may
+    /// run before it does
+    Spawn(usize),
 }
 
 #[derive(Clone, Debug, Default, PartialEq, Eq, Hash)]
@@ -63,6 +66,8 @@ pub struct ThreadSt {
     pub last_load: Option<(Obj, usize)>,
     /// the thread was let through a repeated load once since the last change of shared state
     pub probed: bool,
+    /// the parent has passed the spawn point of this thread (always true under an uncontrolled parent)
+    pub spawned: bool,
 }
 
 #[derive(Clone, Debug)]
@@ -138,13 +143,13 @@ pub struct Ctl {
 impl St {
     fn enabled(&self, t: usize) -> bool {
         let th = &self.threads[t];
-        if th.exited || !th.registered {
+        if th.exited || !th.registered || !th.spawned {
             return false;
         }
         let Some(p) = th.parked else { return false };
         match p {
             Parked::Quiesce => false,
-            Parked::Harness(_) => true,
+            Parked::Harness(_) | Parked::Spawn(_) => true,
             Parked::Ev(ev) => match ev {
                 Event::Lock { obj } => !matches!(self.mirror.locks.get(&obj), Some(Some(_))),
                 Event::Load { obj } => match th.last_load {
@@ -162,7 +167,7 @@ impl St {
         let mut h = DefaultHasher::new();
         self.mirror.hash(&mut h);
         for t in &self.threads {
-            (t.parked, t.exited, t.last_load, t.probed).hash(&mut h);
+            (t.parked, t.exited, t.last_load, t.probed, t.spawned).hash(&mut h);
         }
         // which thread ran last matters for the default continuation only, not for the futures
         extra.hash(&mut h);
@@ -254,6 +259,12 @@ impl St {
                 }
             }
             Parked::Ev(Event::Load { .. }) => {}
+            Parked::Spawn(id) => {
+                self.threads[t].last_load = None;
+                if id < self.threads.len() {
+                    self.threads[id].spawned = true;
+                }
+            }
             _ => self.threads[t].last_load = None,
         }
     }
@@ -264,10 +275,11 @@ impl Ctl {
         if st.halt.is_some() || st.done {
             return;
         }
-        if st.threads.iter().any(|t| !t.registered) {
+        // threads the parent has not reached the spawn point of do not exist yet
+        if st.threads.iter().any(|t| t.spawned && !t.registered) {
             return;
         }
-        if st.threads.iter().any(|t| !t.exited && t.parked.is_none()) {
+        if st.threads.iter().any(|t| t.spawned && !t.exited && t.parked.is_none()) {
             return;
         }
         let extra = self.state_fn.as_ref().map(|f| f()).unwrap_or_default();
@@ -305,7 +317,7 @@ impl Ctl {
         }
         if en.is_empty() {
             st.final_key = key;
-            if st.threads.iter().all(|t| t.exited) {
+            if st.threads.iter().all(|t| t.exited || !t.spawned) {
                 st.done = true;
             } else {
                 let blocked = st.parked_list();
@@ -393,10 +405,21 @@ impl Ctl {
 }
 
 impl Controller for Ctl {
-    fn spawning(&self, _parent: Option<usize>, kind: ThreadKind, index: usize) {
-        let mut st = self.st.lock().unwrap();
-        if !st.threads.iter().any(|t| t.kind == kind && t.index == index) {
-            st.anomalies.push(format!("unexpected thread {kind:?} #{index} is being spawned"));
+    fn spawning(&self, parent: Option<usize>, kind: ThreadKind, index: usize) {
+        let id = {
+            let mut st = self.st.lock().unwrap();
+            match st.threads.iter().position(|t| t.kind == kind && t.index == index) {
+                Some(id) => id,
+                None => {
+                    st.anomalies.push(format!("unexpected thread {kind:?} #{index} is being spawned"));
+                    return;
+                }
+            }
+        };
+        match parent {
+            // a scheduling point of the parent: the threads it spawned before may run first
+            Some(p) => self.park(p, Parked::Spawn(id)),
+            None => self.st.lock().unwrap().threads[id].spawned = true,
         }
     }
 
@@ -409,7 +432,7 @@ impl Controller for Ctl {
             }
             None => {
                 st.anomalies.push(format!("unexpected thread {kind:?} #{index} registered"));
-                st.threads.push(ThreadSt { kind, index, registered: true, parked: None, exited: false, last_load: None, probed: false });
+                st.threads.push(ThreadSt { kind, index, registered: true, parked: None, exited: false, last_load: None, probed: false, spawned: true });
                 st.threads.len() - 1
             }
         }
@@ -473,9 +496,9 @@ impl<R> Exec<R> {
 /// Runs one execution of `body` (logical thread 0 when `consumer_controlled`) under a fresh
 /// controller. `body` gets the controller for its harness-only scheduling points.
 pub fn run<R: Send + 'static>(cfg: Config, body: impl FnOnce(Arc<Ctl>) -> R + Send + 'static) -> Exec<R> {
-    let mut threads = vec![ThreadSt { kind: ThreadKind::Consumer, index: 0, registered: true, parked: None, exited: !cfg.consumer_controlled, last_load: None, probed: false }];
+    let mut threads = vec![ThreadSt { kind: ThreadKind::Consumer, index: 0, registered: true, parked: None, exited: !cfg.consumer_controlled, last_load: None, probed: false, spawned: true }];
     for (kind, index) in &cfg.threads {
-        threads.push(ThreadSt { kind: *kind, index: *index, registered: false, parked: None, exited: false, last_load: None, probed: false });
+        threads.push(ThreadSt { kind: *kind, index: *index, registered: false, parked: None, exited: false, last_load: None, probed: false, spawned: !cfg.consumer_controlled });
     }
     let ctl = Arc::new(Ctl {
         st: Mutex::new(St {
@@ -533,7 +556,7 @@ pub fn run<R: Send + 'static>(cfg: Config, body: impl FnOnce(Arc<Ctl>) -> R + Se
                 if let Ok(r) = rx.try_recv() {
                     body_result = Some(r);
                 }
-                if body_result.is_some() && st.threads.iter().all(|t| t.exited) {
+                if body_result.is_some() && st.threads.iter().all(|t| t.exited || !t.spawned) {
                     st.done = true;
                     break;
                 }
